@@ -8,6 +8,7 @@ mod gas;
 mod gateway;
 mod operators;
 mod token;
+mod upgrade;
 mod probe;
 
 use binder::make_binder;
